@@ -90,6 +90,7 @@ namespace pika::threads::detail {
                 threads::detail::thread_init_data& data = task;
                 threads::detail::thread_id_ref_type tid;
 
+                PIKA_VERIF_POST("newq.pop", nullptr, 2, 0);
                 holder_->create_thread_object(tid, data);
                 holder_->add_to_thread_map(tid.noref());
 
@@ -224,7 +225,9 @@ namespace pika::threads::detail {
             // later thread creation
             ++new_tasks_count_.data_;
 
+            PIKA_VERIF_PRE("newq.push", nullptr);
             new_task_items_.push(task_description(std::move(data)));
+            PIKA_VERIF_POST("newq.push", nullptr, 2, 0);
 
             if (&ec != &throws) ec = make_success_code();
         }
